@@ -4,6 +4,8 @@ import (
 	"context"
 	"fmt"
 	"net/http"
+	"strconv"
+	"strings"
 	"time"
 
 	"github.com/thushan/olla/internal/adapter/converter"
@@ -57,14 +59,32 @@ func (s *SecurityAdapters) enforce(next http.Handler) http.Handler {
 
 			result, err := s.securityChain.Validate(r.Context(), secReq)
 			if err != nil || !result.Allowed {
-				// Write appropriate error response
-				http.Error(w, "Security validation failed", http.StatusForbidden)
+				s.writeRejection(w, result, err)
 				return
 			}
 		}
 
 		next.ServeHTTP(w, r)
 	})
+}
+
+// writeRejection answers a request the security chain refused with the status that fits the reason
+func (s *SecurityAdapters) writeRejection(w http.ResponseWriter, result ports.SecurityResult, err error) {
+	switch {
+	case err != nil:
+		http.Error(w, "Security validation failed", http.StatusForbidden)
+	case result.RateLimit > 0 || result.RetryAfter > 0:
+		if result.RetryAfter > 0 {
+			w.Header().Set("Retry-After", strconv.Itoa(result.RetryAfter))
+		}
+		http.Error(w, "Too Many Requests", http.StatusTooManyRequests)
+	case strings.HasPrefix(result.Reason, "Request body too large"):
+		http.Error(w, "Request body too large", http.StatusRequestEntityTooLarge)
+	case strings.HasPrefix(result.Reason, "Request headers too large"):
+		http.Error(w, "Request headers too large", http.StatusRequestHeaderFieldsTooLarge)
+	default:
+		http.Error(w, "Security validation failed", http.StatusForbidden)
+	}
 }
 
 // CreateRateLimitMiddleware creates middleware that only applies rate limiting with enhanced logging
